@@ -68,25 +68,43 @@ Fixpoint efi_run (fuel : nat) (p : profile) (m : mem) (it : efi_iter) : list str
 
 (* short histories on ONE iterator object mixing next() and the provided nth(k): an overriding nth must compose with
    next() and with itself exactly as k+1 calls of next() do.  A history stops at the first panic. *)
-Inductive hop := HNext | HNth (k : N).
+Inductive hop := HNext | HNth (k : N) | HCount | HLast.
 Definition hists (n : N) : list (list hop) :=
   [ [HNext; HNth 0]; [HNext; HNth 1]; [HNext; HNext; HNth 0]; [HNth 1; HNth 0]; [HNth 0; HNext]; [HNext; HNth n];
-    [HNext; HNth (n - 1)]; [HNth (n - 1); HNext; HNext]; [HNth n; HNext]; [HNth 0; HNth 0; HNth 0] ].
+    [HNext; HNth (n - 1)]; [HNth (n - 1); HNext; HNext]; [HNth n; HNext]; [HNth 0; HNth 0; HNth 0];
+    (* count() / last() of a clone of an advanced iterator (fold-driven provided methods), then the iterator goes on *)
+    [HNext; HCount; HNext]; [HNext; HNext; HLast]; [HNth 1; HCount]; [HCount; HLast; HNext] ].
+(* rest s: the items still to come from state s (what a clone run to its end yields) *)
 Fixpoint run_hops {S A : Type} (next : S -> res (option A * S)) (nth : S -> nat -> res (option A * S))
-                  (show : A -> S -> string) (s : S) (ops : list hop) : list string :=
+                  (rest : S -> list A * res unit) (show : A -> S -> string) (showl : A -> string)
+                  (s : S) (ops : list hop) : list string :=
   match ops with
   | [] => []
-  | o :: rest =>
-      match (match o with HNext => next s | HNth k => nth s (N.to_nat k) end) with
-      | Val (Some a, s') => ("some " ++ show a s')%string :: run_hops next nth show s' rest
-      | Val (None, s') => "none"%string :: run_hops next nth show s' rest
+  | HCount :: more =>
+      let '(l, e) := rest s in
+      match e with
+      | Val _ => ("count " ++ sN (len l))%string :: run_hops next nth rest show showl s more
+      | _ => [sRes (fun _ => ""%string) e]
+      end
+  | HLast :: more =>
+      let '(l, e) := rest s in
+      match e with
+      | Val _ => (match List.last (map Some l) None with Some a => ("last " ++ showl a)%string | None => "last none"%string end)
+                 :: run_hops next nth rest show showl s more
+      | _ => [sRes (fun _ => ""%string) e]
+      end
+  | o :: more =>
+      match (match o with HNth k => nth s (N.to_nat k) | _ => next s end) with
+      | Val (Some a, s') => ("some " ++ show a s')%string :: run_hops next nth rest show showl s' more
+      | Val (None, s') => "none"%string :: run_hops next nth rest show showl s' more
       | x => [sRes (fun _ => ""%string) x]
       end
   end.
 Definition lines_hists {S A : Type} (key : string) (next : S -> res (option A * S)) (nth : S -> nat -> res (option A * S))
-                       (show : A -> S -> string) (s : S) (n : N) : list string :=
+                       (rest : S -> list A * res unit) (show : A -> S -> string) (showl : A -> string) (s : S) (n : N)
+  : list string :=
   snd (fold_left (fun '(i, acc) ops =>
-                    (i + 1, acc ++ [line key (sN i ++ " " ++ String.concat ";" (run_hops next nth show s ops))])%list)
+                    (i + 1, acc ++ [line key (sN i ++ " " ++ String.concat ";" (run_hops next nth rest show showl s ops))])%list)
                  (hists n) (0, [])).
 
 (* nth(k) on a fresh iterator for k around the number of entries, and count() *)
@@ -107,7 +125,9 @@ Definition lines_efi (p : profile) (m : mem) (t : tref) : list string :=
   :: match it with
      | Val i => (efi_run (S (S (N.to_nat (ei_entries i)))) p m i ++ lines_efi_nth p m i
                  ++ lines_hists "efi_hist" (efi_next p m) (efi_nth p m)
-                      (fun off it' => (sView off 40 ++ " len=" ++ sRes sN (efi_len p it'))%string) i (ei_entries i))%list
+                      (fun it => efi_collect (S (S (N.to_nat (ei_entries it)))) p m it)
+                      (fun off it' => (sView off 40 ++ " len=" ++ sRes sN (efi_len p it'))%string) (fun off => sView off 40)
+                      i (ei_entries i))%list
      | _ => []
      end.
 
@@ -153,7 +173,9 @@ Definition lines_elf (p : profile) (m : mem) (t : tref) : list string :=
      | Val i => (elf_run (S (elf_fuel i)) p m i ++ lines_elf_nth p m i
                  ++ (if el_rem i <=? 4096 then
                        lines_hists "elf_hist" (fun it => elf_next (elf_fuel it) p m it) (elf_nth p m)
-                         (fun s it' => (sN (es_inner s) ++ " rem=" ++ sN (el_rem it'))%string) i (el_rem i)
+                         (fun it => elf_collect (S (elf_fuel it)) p m it)
+                         (fun s it' => (sN (es_inner s) ++ " rem=" ++ sN (el_rem it'))%string) (fun s => sN (es_inner s))
+                         i (el_rem i)
                      else []))%list
      | _ => []
      end.
